@@ -265,7 +265,15 @@ func (c *cfgFloat) cpy(ctx context) value                   { return newFloat(ct
 func (c *cfgFloat) toFloat(*options) (float64, error)       { return c.f, nil }
 func (c *cfgFloat) reflect(*options) (reflect.Value, error) { return reflect.ValueOf(c.f), nil }
 func (c *cfgFloat) reify(*options) (interface{}, error)     { return c.f, nil }
-func (c *cfgFloat) toString(*options) (string, error)       { return fmt.Sprintf("%v", c.f), nil }
+func (c *cfgFloat) toString(*options) (string, error) {
+	// whole numbers are spelled without an exponent, like the integers they
+	// are in syntaxes that tell integers and floats apart (the JSON front-ends
+	// deliver every number as a float)
+	if c.f == math.Trunc(c.f) && math.Abs(c.f) < 1e21 {
+		return strconv.FormatFloat(c.f, 'f', 0, 64), nil
+	}
+	return fmt.Sprintf("%v", c.f), nil
+}
 func (c *cfgFloat) typ(*options) (typeInfo, error)          { return typeInfo{"float", tFloat64}, nil }
 
 func (c *cfgFloat) toUint(*options) (uint64, error) {
